@@ -59,31 +59,44 @@ Proof. repeat split; vm_compute; reflexivity. Qed.
 From FA Require Import model.Float model.Conform proofs.ElabProofs.
 Close Scope string_scope.
 
-(** whatever the writer elaborates from well-formed Python data under a well-formed schema is a well-typed wire
-    value whose typing height is at most the elaboration fuel.  [wf_py]: bytes in 0..255, str valid UTF-8, lengths
-    below 2^63, dict keys unique; [wf_schema]/[wf_env]: defaults are well-formed data, fewer than 2^63 branches /
-    symbols; [floats_ok a]: every binary32/64 pattern in [a] is in range -- that d2s/z2d only produce such patterns
-    rests on SpecFloat.binary_round and is not proved (the correspondence evaluates floats_ok on every case). *)
+From FA Require Import proofs.ElabFloats.
+
+(** [data_ok e s v] -- what the abstraction of real Python objects and parsed schemas always satisfies:
+    [wf_py v]: bytes in 0..255, str valid UTF-8, lengths below 2^63, dict keys unique; [wf_schema s] / [wf_env e]: defaults
+    are well-formed data, fewer than 2^63 branches / symbols, field names of a record distinct; [pyfloats_ok v],
+    [dflt_floats_ok s], [env_floats_ok e]: every Python float in the datum and in the defaults is a binary64 pattern
+    (0 <= bits < 2^64).
+    Whatever the writer elaborates from such data is a well-typed wire value whose typing height is at most the
+    elaboration fuel.  No hypothesis on the OUTPUT remains: that float(int), and narrowing to binary32, only produce
+    IEEE bit patterns is proved in proofs/FloatProofs.v (through Flocq; hence the standard library's Reals axioms and
+    classic under Print Assumptions -- allow-listed, DESIGN 10). *)
 Theorem C01_elab_typed : forall f o e s v a,
-  elab f o e s v = WOk a -> wf_env e = true -> wf_schema s = true -> wf_py v = true -> floats_ok a = true ->
-  exists n, (n <= f)%nat /\ typedn n e s a.
-Proof. exact elab_typed. Qed.
+  elab f o e s v = WOk a -> data_ok e s v -> exists n, (n <= f)%nat /\ typedn n e s a.
+Proof. exact elab_typed_py. Qed.
 Print Assumptions C01_elab_typed.
+
+(** the float side condition itself: every binary32 / binary64 pattern of the elaborated wire value is in range *)
+Theorem C01_elab_floats_ok : forall f o e s v a,
+  elab f o e s v = WOk a -> env_floats_ok e = true -> dflt_floats_ok s = true -> pyfloats_ok v = true -> floats_ok a = true.
+Proof. exact elab_floats_ok. Qed.
+Print Assumptions C01_elab_floats_ok.
 
 (** hence the round trip with the ELABORATION fuel as the bound: what schemaless_writer wrote for [v] is read back
     as [py_of a], consuming exactly the written bytes, with anything following on the stream *)
 Theorem C01_roundtrip_conforming : forall f wo ro e s v a pv,
-  elab f wo e s v = WOk a -> wf_env e = true -> wf_schema s = true -> wf_py v = true -> floats_ok a = true ->
-  py_of ro e s a = Some pv ->
+  elab f wo e s v = WOk a -> data_ok e s v -> py_of ro e s a = Some pv ->
   write f wo e s v = WOk (wire a) /\
   forall f', (f <= f')%nat -> forall r, read f' ro e s (wire a ++ r) = Ok (pv, r).
-Proof.
-  intros f wo ro e s v a pv He Hwe Hws Hwv Hfl Hp.
-  assert (Hw : write f wo e s v = WOk (wire a)) by (unfold write; rewrite He; reflexivity).
-  split; [exact Hw|]. intros f' Hf r.
-  exact (C01_roundtrip f wo ro e s v a (wire a) pv Hw He (elab_typedn f wo e s v a He Hwe Hws Hwv Hfl) Hp f' Hf r).
-Qed.
+Proof. exact roundtrip_conforming_py. Qed.
 Print Assumptions C01_roundtrip_conforming.
+
+(** axiom-free variant (closed under the global context): the same with the range of the float leaves of [a] as an
+    explicit hypothesis instead of being derived *)
+Theorem C01_elab_typed_closed : forall f o e s v a,
+  elab f o e s v = WOk a -> wf_env e = true -> wf_schema s = true -> wf_py v = true -> floats_ok a = true ->
+  exists n, (n <= f)%nat /\ typedn n e s a.
+Proof. exact elab_typed. Qed.
+Print Assumptions C01_elab_typed_closed.
 
 (** ---- the documented normalisation, declaratively ---- *)
 (** [normalises n o e s v out] (model/Conform.v) is the statement's sentence clause by clause -- omitted fields replaced by
@@ -105,13 +118,12 @@ Print Assumptions C01_reader_total.
 
 (** end to end: when schemaless_writer accepts [v], schemaless_reader on the written bytes followed by anything returns
     a value [out] that is the documented normalisation of [v], and stops exactly after the written bytes.
-    [floats_ok a] is the float-range side condition of C01_elab_typed (not proved, checked in-model on every case). *)
+    (Float range derived, see C01_elab_typed; [named_env]: named_schemas holds named types.) *)
 Theorem C01_roundtrip_normalised : forall f wo e s v a,
-  elab f wo e s v = WOk a -> wf_env e = true -> named_env e = true -> wf_schema s = true -> wf_py v = true ->
-  floats_ok a = true ->
+  elab f wo e s v = WOk a -> data_ok e s v -> named_env e = true ->
   exists out, normalises f wo e s v out /\ write f wo e s v = WOk (wire a) /\
     forall f', (f <= f')%nat -> forall r, read f' ropts0 e s (wire a ++ r) = Ok (out, r).
-Proof. exact roundtrip_normalised. Qed.
+Proof. exact roundtrip_normalised_py. Qed.
 Print Assumptions C01_roundtrip_normalised.
 
 (** non-vacuity: defaults filled in, hint stripped, tuple -> list, int -> float, float rounded to single, bytearray -> bytes *)
